@@ -14,7 +14,7 @@ using namespace BaseGraph;
 #define GROUP -1
 #endif
 
-static E1Config makeCfg(const std::string &prop, Family fam, bool directed, bool labelled, const std::string &variant, const std::string &name) {
+static E1Config makeCfg(const std::string &prop, Family fam, bool directed, bool labelled, const std::string &variant, const std::string &name, const std::string &tier) {
     E1Config c;
     c.name = name + "/" + variant;
     bool small = variant == "n2";
@@ -87,6 +87,8 @@ static E1Config makeCfg(const std::string &prop, Family fam, bool directed, bool
         exit(2);
     }
     if (small) c.statelessDepth = (prop == "C16") ? 3 : (labelled ? 3 : 4);
+    if (small || variant == "n1") c.silentSuffix = 2;
+    c.silentReduced = tier != "thorough";
     return c;
 }
 
@@ -107,7 +109,7 @@ template <class G> void installC16(Explorer<G> &ex) {
 
 template <class G> int runOne(const std::string &prop, Family fam, bool directed, bool labelled, const std::string &name, const Args &args) {
     std::string variant = args.get("variant", "n2");
-    E1Config cfg = makeCfg(prop, fam, directed, labelled, variant, name);
+    E1Config cfg = makeCfg(prop, fam, directed, labelled, variant, name, args.get("tier", "quick"));
     if (args.has("ops")) return replayHistory<G>(cfg, prop, args);
     Reporter rep;
     rep.property = prop;
